@@ -72,7 +72,8 @@ def gen_uamiv(rng, maxdim=4, maxsteps=3):
     h = rng.choice([0, 0, 5, 12, rng.randint(0, 20)])
     if rng.random() < 0.2:
         # roll-overs: last hours of a day / of the year (1999 -> 2000 included)
-        j = rng.choice([j, 366 if leap else 365])
+        if y < 2069:     # 2070 is outside the two-digit-year window of the format
+            j = rng.choice([j, 366 if leap else 365])
         h = rng.choice([22, 23, 21])
         if rng.random() < 0.3:
             y, leap = 1999, False
